@@ -1,6 +1,6 @@
 (* C04 - hashing and encryption equal the MPQ algorithms and are mutually inverse.
    Property theorems only; every proof is `exact <lemma from Proofs/>`. *)
-From WR Require Import Lib.Bits Mpq.Crypt Proofs.Crypt_proofs.
+From WR Require Import Lib.Bits Mpq.Crypt Proofs.Crypt_proofs Mpq.Jenkins Proofs.Jenkins_proofs.
 Open Scope N_scope.
 
 Theorem C04_decrypt_encrypt_block : forall key ws, decrypt_block (encrypt_block ws key) key = ws.
@@ -59,3 +59,19 @@ Theorem C04_decrypt_block_eq_ref :
   forall ws key, key <> 0 -> key < M32 -> decrypt_block ws key = ref_dec ws key 4008636142.
 Proof. exact decrypt_block_eq_ref. Qed.
 Print Assumptions C04_decrypt_block_eq_ref.
+
+(* Jenkins hashlittle2 as transcribed from jenkins.rs (block loop, `match remaining` on the zero-padded
+   last block) equals the lookup3 formulation, for every key and both seeds *)
+Theorem C04_hashlittle2_eq_ref : forall key pc pb, hashlittle2 key pc pb = ref_hashlittle2 key pc pb.
+Proof. exact hashlittle2_eq_ref. Qed.
+Print Assumptions C04_hashlittle2_eq_ref.
+
+(* the HET name hash (normalisation, 64-bit combination, masks) equals the reference, for every name and width *)
+Theorem C04_het_hash_eq_ref : forall name hash_bits, wf_bytes name -> het_hash name hash_bits = het_hash_ref name hash_bits.
+Proof. exact het_hash_eq_ref. Qed.
+Print Assumptions C04_het_hash_eq_ref.
+
+(* the BET name hash (one-at-a-time over the lower-cased backslash name, 64-bit state) equals the reference *)
+Theorem C04_oaat_eq_ref : forall name, wf_bytes name -> jenkins_one_at_a_time name = ref_oaat name.
+Proof. exact oaat_eq_ref. Qed.
+Print Assumptions C04_oaat_eq_ref.
